@@ -201,7 +201,7 @@ theorem nextLoop_prog {σ} [DecidableEq σ] (env : Env) (prog : σ → Prog σ) 
           have hc1 : Conc a' s1 := hcc1.1
           have hc2 : Conc a'.next ({ s1 with cur := s1.cur + 1 } : Sc σ) := hc1
           have hx2 := extRel_next env.size a' s1 hcc1.2.2.2.1
-          obtain ⟨lex, s3, hd, hc3, hx3, hcur3, hlen3, _⟩ := drain_sound env.size a'.next _ _ (Nat.le_refl _) hc2 hx2
+          obtain ⟨lex, s3, hd, hc3, hx3, hcur3, hlen3, _, _⟩ := drain_sound env.size a'.next _ _ (Nat.le_refl _) hc2 hx2
           rw [hd]
           have hlt := mu_step env a a' s s1 h0 hsz hlag _ _ hcc1.2.2.1
           have hLt := bigM_step env a a' s s1 h0 hsz hlag _ _ hcc1.2.2.1
@@ -282,7 +282,7 @@ theorem next_prog {σ} [DecidableEq σ] (env : Env) (prog : σ → Prog σ) (inp
     have step : ∀ a, Conc a s → ExtRel env.size a s → ∃ lex s', processEvent { s with finds := rest } ev = .ok (lex, s') ∧ Conc a s' ∧
         ExtRel env.size a s' ∧ s'.cur = s.cur ∧ s'.finds = rest := by
       intro a hc hx
-      obtain ⟨lex, s', hp, hc', hx', hrest, hcur, _⟩ := processEvent_sound env.size a s ev rest hfs hc hx
+      obtain ⟨lex, s', hp, hc', hx', hrest, hcur, _, _, _⟩ := processEvent_sound env.size a s ev rest hfs hc hx
       exact ⟨lex, s', hp, hc', hx', hcur, hrest⟩
     have : ∃ lex s', processEvent { s with finds := rest } ev = .ok (lex, s') ∧ ∃ B', B' < B ∧ GoodP env reachAt Bm B' s' := by
       rcases hg with ⟨a, ha, hc, hx, hm, hM⟩ | ⟨hbig, ⟨a, hc, hx⟩, hlen⟩
@@ -330,10 +330,10 @@ theorem scanFrom_prog {σ} [DecidableEq σ] (env : Env) (prog : σ → Prog σ) 
 
 /-- the initial state: potentials `4·|file| + 11` and `(findCap + 1)` times that -/
 theorem goodP_init {σ} [DecidableEq σ] (env : Env) (reachAt : σ → List (RKey σ)) (root : σ)
-    (h : (reachAt root).contains ([], [], 0, true, [], 0) = true) :
+    (h : (reachAt root).contains ([], [], 0, true, [], 0, false) = true) :
     GoodP env reachAt (4 * env.size + 11) ((findCap + 1) * (4 * env.size + 11)) (Sc.init root) := by
   refine Or.inl ⟨{ st := root, stk := [], evk := [] }, h, ⟨rfl, ⟨[], rfl⟩, rfl⟩,
-    ⟨⟨[], rfl, trivial⟩, by simp [Sc.init], by simp [Sc.init], by simp [Sc.init]⟩, ?_, ?_⟩
+    ⟨⟨[], rfl, trivial⟩, by simp [Sc.init], by simp [Sc.init], by simp [Sc.init], rfl⟩, ?_, ?_⟩
   · simp [mu, Sc.init]
     omega
   · simp [bigM, mu, Sc.init, findCap]
